@@ -3,10 +3,8 @@ CONSTANTS
   Users = {"u1", "u2"}
   PoolIds = {"1"}
   Creator = "u1"
-  MaxLen = 4
-  Alphabet = "ledger"
-  Emit = FALSE
-INVARIANTS InvHolds
-PROPERTIES StepOK
-VIEW View
+  MaxLen = 3
+  Alphabet = "batch"
+  Emit = TRUE
+INVARIANTS EmitSchedule
 CHECK_DEADLOCK FALSE
